@@ -448,6 +448,142 @@ func checkC04(c *Ctx, r *Report) {
 		}
 	}
 	r7.Check(nSel >= 4, "blocking hand-over selects found", token.NoPos, nSel, "", "", fmt.Sprint(nSel))
+
+	// ---- R8 ---------------------------------------------------------------
+	r8 := r.Rule("C04-R8", "E1", 14, "stream and connection teardown: Close / Reset / ResetWithError always reach closeAndRemoveStream; the first close marks the stream, drops its swarm reference and, when the accept goroutine is through, removes it from the connection, otherwise that goroutine's completion does, exactly when the stream is closed; removeStream takes the stream off the connection's books and finishes its scope; Conn.Close / CloseWithError run doClose under closeOnce; doClose forgets the streams map and closes the transport connection")
+	stT := swarmP + ".Stream"
+	sm := func(n string) string { return "(*" + stT + ")." + n }
+	cm := func(n string) string { return "(*" + swarmP + ".Conn)." + n }
+	for _, k := range []string{"Close", "Reset", "ResetWithError"} {
+		if f := r8.need(sm(k)); f != nil {
+			calls := findInstrs(f, callPred(sm("closeAndRemoveStream")))
+			r8.mustPass(f, sm(k)+": every return passes closeAndRemoveStream", &Cut{Fn: f, Target: isRetInstr, Sep: inSet(calls)}, len(calls))
+		}
+	}
+	flagEdge := func(field string, want bool) EdgePred {
+		return edgeBool(func(v ssa.Value) bool { return isLoadOfField(stT + "." + field)(strip2(v)) }, want)
+	}
+	setsTrue := func(f *ssa.Function, field string) []ssa.Instruction {
+		return findInstrs(f, func(in ssa.Instruction) bool {
+			st, ok := in.(*ssa.Store)
+			if !ok || !isFieldWrite(in, stT+"."+field) {
+				return false
+			}
+			b, isC := constBool(st.Val)
+			return isC && b
+		})
+	}
+	for _, q := range []struct{ fn, own, other string }{
+		{"closeAndRemoveStream", "isClosed", "acceptStreamGoroutineCompleted"},
+		{"completeAcceptStreamGoroutine", "acceptStreamGoroutineCompleted", "isClosed"},
+	} {
+		f := r8.need(sm(q.fn))
+		if f == nil {
+			continue
+		}
+		sets := setsTrue(f, q.own)
+		w, n := (&Cut{Fn: f, Target: isRetInstr, Sep: inSet(sets), EdgeCut: flagEdge(q.own, true)}).Run(c)
+		r8.Check(w == "" && len(sets) >= 1, sm(q.fn)+": sets "+q.own+" unless it already is", f.Pos(), n+1, "", "the other party never learns that this one is through: the stream stays on the connection's books (or is removed twice)", w)
+		rem := findInstrs(f, callPred(cm("removeStream")))
+		r8.guard(f, "remove the stream from the connection", rem, "first time here", flagEdge(q.own, false), nil)
+		r8.guard(f, "remove the stream from the connection", rem, "the other party ("+q.other+") is through", flagEdge(q.other, true), nil)
+		var from []CFGEdge
+		for _, b := range blocksDeep(f) {
+			for si := range b.Succs {
+				if flagEdge(q.other, true)(b, si) {
+					from = append(from, CFGEdge{b, si})
+				}
+			}
+		}
+		r8.mustPass(f, sm(q.fn)+": with the other party through, the stream is removed", &Cut{Fn: f, FromEdges: from, Target: isRetInstr, Sep: inSet(rem)}, len(from))
+		r8.Check(len(from) >= 1, sm(q.fn)+": tests "+q.other, f.Pos(), len(from), "", "", "")
+		if q.fn == "closeAndRemoveStream" {
+			dones := findInstrs(f, callPred("(*sync.WaitGroup).Done"))
+			w, n := (&Cut{Fn: f, Target: isRetInstr, Sep: inSet(dones), EdgeCut: flagEdge(q.own, true)}).Run(c)
+			r8.Check(w == "" && len(dones) == 1, sm(q.fn)+": the first close drops the stream's swarm reference", f.Pos(), n+1, "", "Swarm.Close waits forever", w)
+			// ... and a repeated close does not
+			w2, _ := (&Cut{Fn: f, Target: inSet(dones), EdgeCut: flagEdge(q.own, false)}).Run(c)
+			r8.Check(w2 == "", sm(q.fn)+": a repeated close drops nothing", f.Pos(), 1, "", "the swarm's reference count goes negative (panic)", w2)
+		}
+	}
+	if f := r8.need(cm("removeStream")); f != nil {
+		dec := findInstrs(f, func(in ssa.Instruction) bool {
+			st, ok := in.(*ssa.Store)
+			if !ok {
+				return false
+			}
+			fl, _ := fieldAddrOf(st.Addr)
+			if fl == nil || fl.Name() != "NumStreams" {
+				return false
+			}
+			bo, isB := resolveLoad(strip(st.Val)).(*ssa.BinOp)
+			if !isB {
+				return false
+			}
+			k, isC := constInt(bo.Y)
+			return isC && ((bo.Op == token.SUB && k == 1) || (bo.Op == token.ADD && k == -1))
+		})
+		del := findInstrs(f, func(in ssa.Instruction) bool {
+			if !isCallTo(in, "builtin.delete") {
+				return false
+			}
+			a := callArgs(in.(ssa.CallInstruction))
+			return len(a) == 2 && (a[1] == ssa.Value(f.Params[1]) || isParamCellLoad(c, resolveLoad(strip2(a[1])), f.Params[1]))
+		})
+		done := findInstrs(f, func(in ssa.Instruction) bool {
+			if !calleeNameIs(in, "Done") {
+				return false
+			}
+			return derivesFrom(callArgs(in.(ssa.CallInstruction))[0], isLoadOfField(stT+".scope"))
+		})
+		for _, x := range []struct {
+			what string
+			ins  []ssa.Instruction
+		}{{"NumStreams goes down by one", dec}, {"the stream leaves the streams map", del}, {"the stream's scope is finished", done}} {
+			r8.mustPass(f, cm("removeStream")+": "+x.what, &Cut{Fn: f, Target: isRetInstr, Sep: inSet(x.ins)}, len(x.ins))
+		}
+	}
+	for _, k := range []string{"Close", "CloseWithError"} {
+		f := r8.need(cm(k))
+		if f == nil {
+			continue
+		}
+		dos := findInstrs(f, callPred("(*sync.Once).Do"))
+		r8.mustPass(f, cm(k)+": every return passes closeOnce.Do", &Cut{Fn: f, Target: isRetInstr, Sep: inSet(dos)}, len(dos))
+		okBody := len(dos) >= 1
+		for _, do := range dos {
+			g := installedFunc(callArgs(do.(ssa.CallInstruction))[1])
+			if g == nil || g.Blocks == nil {
+				okBody = false
+				continue
+			}
+			inner := findInstrs(g, callPred(cm("doClose")))
+			if w, _ := (&Cut{Fn: g, Target: isRetInstr, Sep: inSet(inner)}).Run(c); w != "" || len(inner) == 0 {
+				okBody = false
+			}
+		}
+		r8.Check(okBody, cm(k)+": the once-body runs doClose on every path", f.Pos(), 1, "", "the connection is never taken off the swarm's books: its scope, streams and Disconnected notification are lost", "")
+	}
+	if f := r8.need(cm("doClose")); f != nil {
+		clears := findInstrs(f, func(in ssa.Instruction) bool {
+			st, ok := in.(*ssa.Store)
+			if !ok || !isNilConst(st.Val) {
+				return false
+			}
+			fl, _ := fieldAddrOf(st.Addr)
+			return fl != nil && fl.Name() == "m"
+		})
+		r8.mustPass(f, cm("doClose")+": the streams map is forgotten (no stream can be added any more)", &Cut{Fn: f, Target: isRetInstr, Sep: inSet(clears)}, len(clears))
+		closes := findInstrs(f, func(in ssa.Instruction) bool {
+			if !calleeNameIs(in, "Close", "CloseWithError") {
+				return false
+			}
+			return derivesFrom(callArgs(in.(ssa.CallInstruction))[0], isLoadOfField(swarmP+".Conn.conn"))
+		})
+		r8.mustPass(f, cm("doClose")+": the transport connection is closed", &Cut{Fn: f, Target: isRetInstr, Sep: inSet(closes)}, len(closes))
+		resets := findInstrs(f, callPred(sm("Reset"), sm("ResetWithError")))
+		r8.Check(len(resets) >= 1, cm("doClose")+": the streams that were open are reset", f.Pos(), len(resets), "", "their scopes and swarm references are never released", "")
+	}
 }
 
 func allAnon(f *ssa.Function) []*ssa.Function {
